@@ -27,7 +27,7 @@ package clientinterceptors
 //@ func BreakerInterceptor
 //@   property C01
 //@   ghost at after Join#0: bn = ret
-//@   call Join#0: assert arg1 == method
+//@   call Join#0: assert raw1 == method && len(arg_elem) == 2
 //@   call DoWithAcceptableCtx#0: assert arg_ctx == ctx && arg_name == bn
 //@ func BreakerInterceptor closure 0
 //@   property C01
